@@ -167,6 +167,9 @@ EntriesFrom(ls, i, ind, acc, hasOpen) ==
             ELSE LET rest == EntriesFrom(ls, lastC + 1, ind, Append(acc, e), hasOpen \/ v.kind = "open")
                  IN  [rest EXCEPT !.unspec = @ \/ sepTab \/ v.unspec]
 
+RECURSIVE SubSeqTexts(_, _, _)
+SubSeqTexts(ls, i, j) == IF i > j THEN <<>> ELSE <<ls[i].text>> \o SubSeqTexts(ls, i + 1, j)
+
 ParseRecord(ls) ==
     LET h == ParseHeadline(ls[1])
         n == Len(ls)
@@ -195,11 +198,16 @@ LoneCR(ls) == \E i \in 1..Len(ls) : \E j \in 1..Len(ls[i].text) : Ch(ls[i].text,
 ZsOnlyLine(ls) == \E i \in 1..Len(ls) : ls[i].text # "" /\ ~BlankST(ls[i].text) /\ BlankSpec(ls[i].text)
 HasPUA(ls) == \E i \in 1..Len(ls) : \E j \in 1..Len(ls[i].text) : PUA(Ch(ls[i].text, j))
 
+(* the records of all blocks, as a concrete tuple (each block is parsed exactly once) *)
+RECURSIVE ParseBlocks(_, _, _)
+ParseBlocks(ls, bs, k) ==
+    IF k > Len(bs) THEN <<>>
+    ELSE <<ParseRecord(SubSeqTexts(ls, bs[k].sigFirst, bs[k].sigLast))>> \o ParseBlocks(ls, bs, k + 1)
+
 ParseDoc(text) ==
     LET ls == SplitLines(text)
         bs == Blocks(ls)
-        recs == [k \in 1..Len(bs) |->
-                    ParseRecord([m \in 1..(bs[k].sigLast - bs[k].sigFirst + 1) |-> ls[bs[k].sigFirst + m - 1].text])]
+        recs == ParseBlocks(ls, bs, 1)
         bad == {k \in 1..Len(bs) : ~recs[k].ok}
         firstBad == IF bad = {} THEN 0 ELSE CHOOSE k \in bad : \A k2 \in bad : k <= k2
         unspec == LoneCR(ls) \/ ZsOnlyLine(ls) \/ HasPUA(ls)
